@@ -111,6 +111,16 @@ Proof.
   apply Z.ltb_lt in H1. apply Z.leb_le in H2. apply Z.leb_le in H3. lia.
 Qed.
 
+(* the size_t arithmetic of the copies does not wrap for arguments in the range of `int` *)
+Lemma copy_len_small n t : valid_dt t -> 0 <= n < 2 ^ 31 -> copy_len n t = n * type_size t.
+Proof.
+  intros Hv Hn. unfold copy_len. rewrite (sizeof_abi t Hv).
+  pose proof (dt_bounds t Hv) as (Hb1 & Hb2).
+  change (2 ^ 31) with 2147483648 in Hn.
+  rewrite (u64_id n) by (unfold in_u64, M64; lia).
+  rewrite u64_id by (unfold in_u64, M64; nia). reflexivity.
+Qed.
+
 (* ---- collectives ---- *)
 Lemma contiguous_copy_coll_ok t count displ send recv :
   valid_dt t -> 0 <= count -> 0 <= displ -> contiguous_ok t count displ ->
@@ -145,32 +155,32 @@ Proof.
 Qed.
 
 Theorem gather_spec send recv np t nq tq :
-  valid_dt t -> 0 <= np -> contiguous_ok t np 0 ->
+  valid_dt t -> 0 <= np < 2 ^ 31 -> contiguous_ok t np 0 ->
   np * extent t <= len send -> np * extent t <= len recv ->
   exists r', sc_gather send np t recv nq tq = (SUCCESS, Some r') /\ coll_ok t np 0 send recv r'.
 Proof.
-  intros Hv Hn Hk Hs Hr. unfold sc_gather. rewrite (sizeof_abi t Hv).
-  destruct (contiguous_copy_coll_ok t np 0 send recv Hv Hn ltac:(lia) Hk Hs ltac:(lia)) as (r' & Hm & Hok).
+  intros Hv Hn Hk Hs Hr. unfold sc_gather, gather_copy. rewrite (copy_len_small np t Hv Hn).
+  destruct (contiguous_copy_coll_ok t np 0 send recv Hv ltac:(lia) ltac:(lia) Hk Hs ltac:(lia)) as (r' & Hm & Hok).
   simpl in Hm. exists r'. rewrite Hm. auto.
 Qed.
 
 Theorem gatherv_spec send recv np t displ :
-  valid_dt t -> 0 <= np -> 0 <= displ -> contiguous_ok t np displ ->
+  valid_dt t -> 0 <= np < 2 ^ 31 -> 0 <= displ < 2 ^ 31 -> contiguous_ok t np displ ->
   np * extent t <= len send -> (displ + np) * extent t <= len recv ->
   exists r', sc_gatherv send np t recv np displ t = (SUCCESS, Some r') /\ coll_ok t np displ send recv r'.
 Proof.
-  intros Hv Hn Hd Hk Hs Hr. unfold sc_gatherv. rewrite (sizeof_abi t Hv).
-  destruct (contiguous_copy_coll_ok t np displ send recv Hv Hn Hd Hk Hs Hr) as (r' & Hm & Hok).
+  intros Hv Hn Hd Hk Hs Hr. unfold sc_gatherv, gatherv_copy. rewrite (copy_len_small np t Hv Hn), (copy_len_small displ t Hv Hd).
+  destruct (contiguous_copy_coll_ok t np displ send recv Hv ltac:(lia) ltac:(lia) Hk Hs Hr) as (r' & Hm & Hok).
   exists r'. rewrite Hm. auto.
 Qed.
 
 Theorem reduce_spec send recv n t op :
-  valid_dt t -> 0 <= n -> contiguous_ok t n 0 ->
+  valid_dt t -> 0 <= n < 2 ^ 31 -> contiguous_ok t n 0 ->
   n * extent t <= len send -> n * extent t <= len recv ->
   exists r', sc_reduce send recv n t op = (SUCCESS, Some r') /\ coll_ok t n 0 send recv r'.
 Proof.
-  intros Hv Hn Hk Hs Hr. unfold sc_reduce. rewrite (sizeof_abi t Hv).
-  destruct (contiguous_copy_coll_ok t n 0 send recv Hv Hn ltac:(lia) Hk Hs ltac:(lia)) as (r' & Hm & Hok).
+  intros Hv Hn Hk Hs Hr. unfold sc_reduce, gather_copy. rewrite (copy_len_small n t Hv Hn).
+  destruct (contiguous_copy_coll_ok t n 0 send recv Hv ltac:(lia) ltac:(lia) Hk Hs ltac:(lia)) as (r' & Hm & Hok).
   simpl in Hm. exists r'. rewrite Hm. auto.
 Qed.
 
@@ -200,16 +210,27 @@ Proof.
   rewrite s32_id by (unfold in_s32, M32; nia). lia.
 Qed.
 
+(* the space test and the advance in `int` arithmetic, for a request that fits in an int *)
+Lemma pack_arith pos size lim : 0 <= pos -> 0 <= size -> pos + size < 2 ^ 31 ->
+  pack_refuses pos size lim = (pos + size >? lim) /\ pack_advance pos size = pos + size /\ u64 size = size.
+Proof.
+  intros Hp Hs Hb. change (2 ^ 31) with 2147483648 in Hb. unfold pack_refuses, pack_advance.
+  rewrite s32_id by (unfold in_s32, M32; lia). rewrite u64_id by (unfold in_u64, M64; lia).
+  rewrite Z.gtb_ltb. auto.
+Qed.
+
 Theorem pack_spec inbuf incount t outbuf outsize pos :
-  valid_dt t -> 0 <= incount -> incount * type_size t < 2 ^ 31 -> contiguous_ok t incount 0 ->
-  incount * extent t <= len inbuf -> len outbuf = outsize -> 0 <= pos ->
+  valid_dt t -> 0 <= incount -> contiguous_ok t incount 0 ->
+  incount * extent t <= len inbuf -> len outbuf = outsize -> 0 <= pos -> pos + incount * type_size t < 2 ^ 31 ->
   let '(rc, out', pos') := sc_pack inbuf incount t outbuf outsize pos in
   (rc = SUCCESS <-> pos + incount * type_size t <= outsize) /\
   (rc <> SUCCESS -> out' = Some outbuf /\ pos' = pos) /\
   (rc = SUCCESS -> exists o, out' = Some o /\ pack_ok t incount inbuf outbuf pos o pos').
 Proof.
-  intros Hv Hc Hsm Hk Hin Hout Hp. unfold contiguous_ok in Hk. unfold sc_pack. rewrite (pack_bytes_small incount t Hv Hc Hsm).
+  intros Hv Hc Hk Hin Hout Hp Hsm. unfold contiguous_ok in Hk. unfold sc_pack, pack_copy.
   pose proof (dt_bounds t Hv) as (Hb1 & Hb2).
+  rewrite (pack_bytes_small incount t Hv Hc ltac:(nia)).
+  destruct (pack_arith pos (incount * type_size t) outsize Hp ltac:(nia) Hsm) as (-> & -> & ->).
   set (sz := type_size t) in *. set (ex := extent t) in *.
   destruct (pos + incount * sz >? outsize) eqn:E.
   - apply Z.gtb_lt in E. split; [split; [discriminate|intros; lia]|]. split; [auto|]. intros H; discriminate H.
@@ -229,15 +250,17 @@ Proof.
 Qed.
 
 Theorem unpack_spec inbuf insize pos outbuf outcount t :
-  valid_dt t -> 0 <= outcount -> outcount * type_size t < 2 ^ 31 -> contiguous_ok t outcount 0 ->
-  len inbuf = insize -> outcount * extent t <= len outbuf -> 0 <= pos ->
+  valid_dt t -> 0 <= outcount -> contiguous_ok t outcount 0 ->
+  len inbuf = insize -> outcount * extent t <= len outbuf -> 0 <= pos -> pos + outcount * type_size t < 2 ^ 31 ->
   let '(rc, out', pos') := sc_unpack inbuf insize pos outbuf outcount t in
   (rc = SUCCESS <-> pos + outcount * type_size t <= insize) /\
   (rc <> SUCCESS -> out' = Some outbuf /\ pos' = pos) /\
   (rc = SUCCESS -> exists o, out' = Some o /\ unpack_ok t outcount inbuf pos outbuf o pos').
 Proof.
-  intros Hv Hc Hsm Hk Hin Hout Hp. unfold contiguous_ok in Hk. unfold sc_unpack. rewrite (pack_bytes_small outcount t Hv Hc Hsm).
+  intros Hv Hc Hk Hin Hout Hp Hsm. unfold contiguous_ok in Hk. unfold sc_unpack, unpack_copy.
   pose proof (dt_bounds t Hv) as (Hb1 & Hb2).
+  rewrite (pack_bytes_small outcount t Hv Hc ltac:(nia)).
+  destruct (pack_arith pos (outcount * type_size t) insize Hp ltac:(nia) Hsm) as (-> & -> & ->).
   set (sz := type_size t) in *. set (ex := extent t) in *.
   destruct (pos + outcount * sz >? insize) eqn:E.
   - apply Z.gtb_lt in E. split; [split; [discriminate|intros; lia]|]. split; [auto|]. intros H; discriminate H.
